@@ -41,7 +41,15 @@ def _worker(arg):
     kind, paths = arg[:2]
     shard = arg[2] if len(arg) > 2 else None       # (k, n, quick): byte positions i with i % n == k of a large block
     ledger.setup()
-    uni = ledger.tx_universe(kind)
+    if kind == 'easy-period4':
+        # retarget period seam 4 (as in C05): the blocks at heights 4 and 8 are the first of a period - what is checked for a
+        # block must not depend on which of the two target rules applies to it
+        from .. import seams
+        from . import c05
+        seams.retarget_period(c05.SEAM_PERIOD, c05.SEAM_SPAN)
+        uni = c05.make_universe()
+    else:
+        uni = ledger.tx_universe(kind)
     st = collections.Counter()
     bad = []
     rules = collections.Counter()
@@ -121,7 +129,7 @@ def _worker(arg):
                     st['accepted'] += 1
                     if len(bad) < 5:
                         bad.append(('mutant-accepted-by-state-holding-the-genuine-block', "block %s (%d bytes): %s is accepted without "
-                                    "complaint by a chain state that already holds the genuine block" % ('/'.join(p), len(raw), desc), kind, p, desc))
+                                    "complaint by a chain state that already holds the genuine block" % ('/'.join(map(str, p)), len(raw), desc), kind, p, desc))
                     return
                 except Exception:
                     pass
@@ -131,7 +139,7 @@ def _worker(arg):
                     st['accepted'] += 1
                     if len(bad) < 5:
                         bad.append(('mutant-accepted-on-side-branch', "block %s (%d bytes): %s gives another acceptable block when the "
-                                    "block's chain is a side branch next to a longer active chain" % ('/'.join(p), len(raw), desc), kind, p, desc))
+                                    "block's chain is a side branch next to a longer active chain" % ('/'.join(map(str, p)), len(raw), desc), kind, p, desc))
                     return
                 except Exception:
                     pass
@@ -151,7 +159,7 @@ def _worker(arg):
             if len(bad) < 5:
                 same = b.hash() == enc.sha256d(raw[:hdr_len])
                 bad.append(('mutant-accepted' + ('-on-second-presentation' if second else ''), "block %s (%d bytes): %s gives %s%s" % (
-                    '/'.join(p), len(raw), desc, "an acceptable block with the SAME id and different content" if same
+                    '/'.join(map(str, p)), len(raw), desc, "an acceptable block with the SAME id and different content" if same
                     else "another acceptable block", second), kind, p, desc))
         ba = bytearray(raw)
         positions = range(len(raw))
@@ -197,7 +205,7 @@ def _worker(arg):
                                     desc = 'flip bit %d of byte %d' % (bit, i)
                                     bad.append(('mutant-accepted-just-above-horizon', "block %s (%d bytes, height %d) with the checkpoint "
                                                 "horizon at height %d: %s gives another acceptable block" % (
-                                                    '/'.join(p), len(raw), node.height, node.height - 1, desc), kind, p, desc))
+                                                    '/'.join(map(str, p)), len(raw), node.height, node.height - 1, desc), kind, p, desc))
                             except Exception:
                                 pass
                             ba[i] ^= (1 << bit)
@@ -224,6 +232,16 @@ def run(ctx):
     if ledger.tx_universe('easy').get(BIG) is not None:
         nblocks['easy'] += 1
         jobs += [('easy', [BIG], (k, 16, ctx.quick)) for k in range(16)]
+    # blocks on both sides of (and at) retarget boundaries under the period seam
+    pp = []
+    for dts in ((120,) * 9, (60, 60, 60, 60, 240, 240, 240, 240, 30)):
+        p = ()
+        for i, dt in enumerate(dts):
+            p = p + (('e', dt),)
+            if len(p) in (3, 4, 5, 8, 9) and (not ctx.quick or len(p) in (3, 4, 8)):
+                pp.append(p)
+    nblocks['easy-period4'] = len(pp)
+    jobs += [('easy-period4', [p]) for p in pp]
     res = ctx.pmap(_worker, jobs)
     st = collections.Counter()
     rules = collections.Counter()
@@ -237,7 +255,7 @@ def run(ctx):
         'rule': "every single-bit flip and every proper prefix of the encoding of %s blocks (easy-target universe, where the "
                 "id-below-target rule never fires, and real-genesis universe); a mutant is non-trivial when it decodes and "
                 "reaches full validation" % dict(nblocks),
-        'samples': [{'universe': j[0], 'block': '/'.join(j[1][0]), 'mutations': ['flip bit 0 of byte 0', 'flip bit 1 of byte 0',
+        'samples': [{'universe': j[0], 'block': '/'.join(map(str, j[1][0])), 'mutations': ['flip bit 0 of byte 0', 'flip bit 1 of byte 0',
                                                                               '... every bit of every byte ...', 'truncate to 0 bytes',
                                                                               '... every proper prefix ...']} for j in jobs[:2]],
         'exhaustive': True, 'blocks': nblocks, 'controls_accepted': st['controls_accepted'],
@@ -250,5 +268,6 @@ def run(ctx):
 
 
 def replay(data, ctx):
-    st, bad, rules = _worker((data['uni'], [tuple(data['path'])]) + (((0, 1, False),) if len(data['path']) == 4 and data['path'][-1] == 'm' else ()))
+    path = tuple(tuple(x) if isinstance(x, list) else x for x in data['path'])
+    st, bad, rules = _worker((data['uni'], [path]) + (((0, 1, False),) if len(data['path']) == 4 and data['path'][-1] == 'm' else ()))
     return [(k, w) for k, w, _, _, _ in bad]
